@@ -11,14 +11,14 @@ CFG = {
                 assumptions=["the reference reading of a scanned definition: JSON-schema draft 4 with integer formats as Go ranges, float as single precision, date-time as RFC 3339, byte as base64, x-nullable as 'null accepted' (harness/cmd/scancheck/refvalid.go = sval on the fragment, compared every run); go-openapi/validate is recorded as a second opinion only (it skips the type check of typed schemas with numeric/date formats)",
                              "encoding/json and the Go compiler are the implementation's side of the comparison; values are built by a reflection driver (zero/full/max/min/empty/random)",
                              "floats, time.Time, named types, ',string', embedded pointers, embeddings with a json name, what an overwritten property leaves behind (x-nullable, $ref siblings), interface{}, json.RawMessage, []byte are decided on the implementation only"]),
-    "C18": dict(props="Props/C18.v", cone=["Base/Str.v", "Tools/Decimal.v", "Scan/DocVocab.v", "Scan/DocVocabLemmas.v", "Scan/DocVocabRun.v"], target="Scan/DocVocabRun.vo",
+    "C18": dict(props="Props/C18.v", cone=["Base/Str.v", "Tools/Decimal.v", "Gen/GenTaggers.v", "Scan/Taggers.v", "Scan/DocVocab.v", "Scan/DocVocabLemmas.v", "Scan/DocVocabRun.v"], target="Scan/DocVocabRun.vo",
                 sub="c18", report="c18.json", cases="coq-c18", quick=["-random", "20"], thorough=["-random", "400"], needs_swagger=True,
                 where="doc-comment lines of generated struct fields vs emit; scanned validations vs parse of those lines",
                 model="hand-written Gallina model of propertyValidationDocString (generator/templates/validation/structfield.gotmpl) and of the scanner's recognisers for the same keywords (codescan/regexprs.go, set* parsers) on emitted lines (Scan/DocVocab.v)",
                 assumptions=["the whole-document comparison (input definitions vs codescan.Run over the models generated from them) is the property's own observable and runs on the implementation; the model covers the property-level validation vocabulary with integer values below 10^6",
                              "go/parser reads the generated field comments; swagger generate model and codescan.Run are the two halves under test",
                              "enums, formats, $ref structure, alias / item / map-value constraints are compared on the implementation only"]),
-    "C17": dict(props="Props/C17.v", cone=["Base/Str.v", "Tools/GenServer.v", "Tools/GenServerLemmas.v", "Tools/Decimal.v", "Scan/Annot.v", "Scan/AnnotLemmas.v", "Scan/AnnotRun.v"], target="Scan/AnnotRun.vo",
+    "C17": dict(props="Props/C17.v", cone=["Base/Str.v", "Tools/GenServer.v", "Tools/GenServerLemmas.v", "Tools/Decimal.v", "Gen/GenTaggers.v", "Scan/Taggers.v", "Scan/Annot.v", "Scan/AnnotLemmas.v", "Scan/AnnotRun.v"], target="Scan/AnnotRun.vo",
                 sub="c17", report="c17.json", cases="coq-c17", quick=["-programs", "12", "-junk", "60"], thorough=["-programs", "300", "-junk", "1500"],
                 where="swagger:route header lines and items.-level default literals scanned by codescan.Run vs parse_route / typed_literal",
                 model="hand-written Gallina model of the swagger:route / swagger:operation header grammar (rxRoute + parsePathAnnotation) on single-blank ASCII lines and of the level at which default / example / enum literals are typed (Scan/Annot.v)",
@@ -34,6 +34,8 @@ def run(ctx):
     ctx.build_tools(["scancheck"])
     if cfg.get("needs_swagger"):
         ctx.build_swagger()
+    if ctx.pid in ("C17", "C18"):
+        ctx.translate([("taggers", "GenTaggers.v")])
     cq = common.coq_phase(ctx, cfg["props"], cfg["cone"] + [cfg["props"]], [cfg["target"]])
     broken = []
     odir = os.path.join(ctx.work, "scan")
